@@ -70,39 +70,43 @@ theorem prod_cfactor_link (M : Model) (τ : Y0.Val) : ∀ (fs : List (List Var))
       · rintro ⟨p, hp, rfl⟩
         exact ⟨p.1, (mem_sortBy _ _ _).2 ((h1 p.1).2 (List.mem_map.2 ⟨p, hp, rfl⟩)), rfl⟩
 
-/-- **core of the value clause**, relative to the syntactic link between line 2 and `factorize` -/
-theorem ctfTRu_sound_core (target : MG Name) (ds : List Domain) (e ev : Event) (x : Expr)
+/-- **core of the value clause**, relative to the syntactic link between line 2 and `factorize`.  `ev` is the simplified
+event Algorithm 2 works on; `evv` is an event over the same variables that gives every one of them a value (`ev`
+itself when no item is valueless; `fillEvent ev` — every valueless `W` gets the value symbol `-W` — for the reading in
+which a valueless variable stays a free variable of the answer). -/
+theorem ctfTRu_sound_core (target : MG Name) (ds : List Domain) (ev evv : Event) (x : Expr)
     (hwf : target.WF)
     (F : FscmFamily) (graphs : Option Name → MG Name)
     (hF : F.CompatibleWith target graphs (declsOf ds)) (hds : DomainsSpecOK ds)
-    (ν : BaseValues) (hν : ν.Distinct) (σ σ' : Y0.Val) (hσr : ∀ x, σ x < F.card x)
-    (hrefl : ∀ p ∈ e, selfIntervened p.1 = false)
-    (hval : ∀ p ∈ e, ∀ i, p.2 = some i → i.name = p.1.name)
-    (hread : readableQuery ev = true)
-    (hcls : factorizeClasses target ev = .ok (false, false, false))
-    (hnone : ∀ p ∈ ev, p.2 ≠ none)
-    (hstar : ∀ D, ancestralSet target ev = .ok D → ∀ p ∈ ev, ∀ i ∈ p.1.ivs, i.star = true →
-      i.name ∈ D.map (·.name) → i.name ∈ ev.map (·.1.name))
-    (hσ : EventReading ν σ ev)
+    (ν : BaseValues) (σ σ' : Y0.Val) (hσr : ∀ x, σ x < F.card x)
+    (hvars : evv.map (·.1) = ev.map (·.1))
+    (hread : readableQuery evv = true)
+    (hcls : factorizeClasses target evv = .ok (false, false, false))
+    (hnone : ∀ p ∈ evv, p.2 ≠ none)
+    (hstar : ∀ D, ancestralSet target evv = .ok D → ∀ p ∈ evv, ∀ i ∈ p.1.ivs, i.star = true →
+      i.name ∈ D.map (·.name) → i.name ∈ evv.map (·.1.name))
+    (hσ : EventReading ν σ evv)
     -- the pieces of the answer (`ctfTRu_answer_shape`)
     (anc : Event) (factors : List Event) (qs : List Expr)
-    (hs : simplify target e = .ok (some ev))
     (ht : transportFactors ds factors = .ok (some qs))
     (hx : x = TrDsl.sumSafe (TrDsl.productSafe qs) ((summedNames anc ev).map Var.plain))
     -- the link with C19's factorisation
     (D cs : List Var) (fs : List (List Var)) (E : Expr) (fev : Event)
-    (hD : ancestralSet target ev = .ok D) (hcs : D.mapM (convertOne target) = .ok cs)
+    (hD : ancestralSet target evv = .ok D) (hcs : D.mapM (convertOne target) = .ok cs)
     (hfs : ctfFactors (target.subgraph (dedup' ((dedup' cs).map (·.name)))) (dedup' cs) = .ok fs)
-    (hfz : factorize target ev = .ok (E, fev))
+    (hfz : factorize target evv = .ok (E, fev))
     (hlinkF : LinkFactors fs factors) (hlinkR : LinkRange anc ev cs)
     (hnodes : ∀ f ∈ factors, ∀ p ∈ f, p.1.name ∈ target.nodes) :
-    den (F.env graphs) σ' x σ = probEventOpt F.target ν e := by
+    den (F.env graphs) σ' x σ = probEventOpt F.target ν evv := by
   have hTp := hF.target
   have hTc : Compatible F.target target := hTp.compat
+  have hnames : evv.map (·.1.name) = ev.map (·.1.name) := by
+    have := congrArg (List.map (·.name)) hvars
+    rw [List.map_map, List.map_map] at this
+    exact this
   -- the target probability as a sum of products of c-factors
-  rw [simplify_prob_partial target e ev hs hrefl hval F.target hTc ν hν]
   obtain ⟨D', cs', fs', hD', hcs', hfs', C, hprob⟩ :=
-    factorisation_cfactors target hwf ev E fev hfz hread hcls F.target hTc hTp.wf.noise_sum F.card hTp.wf.f_range
+    factorisation_cfactors target hwf evv E fev hfz hread hcls F.target hTc hTp.wf.noise_sum F.card hTp.wf.f_range
       ν σ hσ hnone hstar
   have e1 : D' = D := by rw [hD] at hD'; cases hD'; rfl
   subst e1
@@ -110,7 +114,7 @@ theorem ctfTRu_sound_core (target : MG Name) (ds : List Domain) (e ev : Event) (
   subst e2
   have e3 : fs' = fs := by rw [hfs] at hfs'; cases hfs'; rfl
   subst e3
-  rw [hprob, hx, den_ctfTRu_answer _ _ qs _ (summedNames_nodup anc ev)]
+  rw [hprob, hx, den_ctfTRu_answer _ _ qs _ (summedNames_nodup anc ev), hnames]
   -- same range
   set R := (dedup' ((dedup' cs').map (·.name))).filter (fun n => decide (n ∉ dedup' (ev.map (·.1.name)))) with hR
   have hRnd : R.Nodup := (nodup_dedup' _).filter _
